@@ -489,15 +489,19 @@ D_EXC = dict(exc=True)
 
 def _process_child_attrs(cls, retval, kwargs):
     child_attrs = copy(kwargs.get('child_attrs', None))
-    child_attrs_all = kwargs.get('child_attrs_all', None)
-    child_attrs_noexc = copy(kwargs.get('child_attrs_noexc', None))
+    child_attrs_all = copy(kwargs.get('child_attrs_all', None))
+    child_attrs_noexc = kwargs.get('child_attrs_noexc', None)
+    if child_attrs_noexc is not None:
+        # these are modified below and the caller may use them again.
+        child_attrs_noexc = dict([(k, dict(v))
+                                        for k, v in child_attrs_noexc.items()])
 
     # add exc=False to child_attrs_noexc
     if child_attrs_noexc is not None:
         # if there is _noexc, make sure that child_attrs_all is also used to
         # exclude exclude everything else first
         if child_attrs_all is None:
-            child_attrs_all = D_EXC
+            child_attrs_all = dict(D_EXC)
 
         else:
             if 'exc' in child_attrs_all and child_attrs_all['exc'] != D_EXC:
